@@ -316,7 +316,7 @@ class TexNode(object):
         ' Nested\n    '
         """
         for descendant in self.contents:
-            if isinstance(descendant, (TexText, Token)):
+            if isinstance(descendant, str):  # TexText, Token or a plain string
                 yield descendant
             elif hasattr(descendant, 'text'):
                 yield from descendant.text
@@ -803,7 +803,7 @@ class TexExpr(object):
         TexExpr('textbf', ['hello', 'world'])
         """
         self._assert_supports_contents()
-        self._contents.extend(exprs)
+        self._contents.extend(self._as_content(expr) for expr in exprs)
 
     def insert(self, i, *exprs):
         """Insert content at specified position into expression.
@@ -823,6 +823,7 @@ class TexExpr(object):
         """
         self._assert_supports_contents()
         for j, expr in enumerate(exprs):
+            expr = self._as_content(expr)
             if isinstance(expr, TexExpr):
                 expr.parent = self
             self._contents.insert(i + j, expr)
@@ -844,6 +845,15 @@ class TexExpr(object):
         index = self._contents.index(expr)
         self._contents.remove(expr)
         return index
+
+    @staticmethod
+    def _as_content(item):
+        """Content lists hold expressions: unwrap nodes, wrap plain strings."""
+        if isinstance(item, TexNode):
+            return item.expr
+        if isinstance(item, str) and not isinstance(item, (TexExpr, Token)):
+            return TexText(item)
+        return item
 
     def _supports_contents(self):
         return True
